@@ -4,7 +4,7 @@ import HappyProofs.C18.StoreRefine
 import HappyProofs.C18.Exchange
 import HappyProofs.C18.StoreDeliver
 import HappyProofs.C18.StoreGossip
-import HappyProofs.C18.StoreJudge2
+import HappyProofs.C18.StoreJudge7
 import HappyProofs.C18.KClock
 import HappyProofs.C18.ClockTrace
 import HappyModel.C18.Spec
@@ -640,6 +640,58 @@ theorem store_trace_values_accepted (kind : Kind) (n : Nat) (peers : List (List 
     rw [hrun]
   rw [hrep]
   exact judgeValue_replica kind _ a mentioned
+
+/-- every step of a well-formed script (stores named by the script and by the peer lists are
+    `< n`) passes all per-step clauses of the store judge on the model's own observations: gossip
+    messages carry every key their sender has received an update for, stores report every key they
+    have received an update for, every reported value is the specified one. `judgeStore.go` is the
+    judge's loop over the steps; `none` = no violation. -/
+theorem store_trace_steps_accepted (kind : Kind) (n nkeys : Nat) (mentioned : List Nat)
+    (steps : List SStep) :
+    ∀ {j : JSt} {st : SSt} {ops : List (Nat × XOp)} (i : Nat), TInv n j st ops →
+    (∀ x ∈ steps, WFStep n x) →
+    judgeStore.go kind n nkeys mentioned j i (traceObs kind st steps) =
+      (advanceAll kind n j (traceObs kind st steps), none) := by
+  induction steps with
+  | nil => intro j st ops i _ _; simp [judgeStore.go, traceObs, advanceAll]
+  | cons x xs ih =>
+    intro j st ops i h hw
+    obtain ⟨T, hstep⟩ := step_ok kind nkeys mentioned (fun ops a => judgeValue_replica kind ops a mentioned)
+      h x (hw x List.mem_cons_self)
+    simp only [traceObs, judgeStore.go, hstep, advanceAll]
+    exact ih (i + 1) T (fun y hy => hw y (List.mem_cons_of_mem _ hy))
+
+/-- … from the initial state: the whole script -/
+theorem store_trace_satisfies_spec_steps (kind : Kind) (n nkeys : Nat) (peers : List (List Nat))
+    (steps : List SStep) (mentioned : List Nat) (hp : WFPeers n peers) (hs : ∀ x ∈ steps, WFStep n x) :
+    (judgeStore.go kind n nkeys mentioned {} 0 (traceObs kind (SSt.init n peers) steps)).2 = none := by
+  rw [store_trace_steps_accepted kind n nkeys mentioned steps 0 (tinv_init n peers hp) hs]
+
+/-- the invariant behind the two bookkeeping clauses: a store has received an update of a key only
+    if it holds the key (well-formed scripts) -/
+theorem store_received_only_if_held (kind : Kind) (n : Nat) (peers : List (List Nat))
+    (steps : List SStep) (hp : WFPeers n peers) (hs : ∀ x ∈ steps, WFStep n x) (a k : Nat) (ha : a < n)
+    (hk : (SpecSys.run {} (storeOps kind n peers steps k)).know a ≠ []) :
+    (SSt.run .repaired kind (SSt.init n peers) steps).p.holds a k = true := by
+  have hT : ∀ (steps : List SStep) {j : JSt} {st : SSt} {ops : List (Nat × XOp)}, TInv n j st ops →
+      (∀ x ∈ steps, WFStep n x) →
+      TInv n (advanceAll kind n j (traceObs kind st steps)) (SSt.run .repaired kind st steps)
+        (ops ++ PSt.ops .repaired kind st.p steps) := by
+    intro steps
+    induction steps with
+    | nil => intro j st ops h _; simpa [advanceAll, traceObs, SSt.run, PSt.ops] using h
+    | cons x xs ih =>
+      intro j st ops h hw
+      obtain ⟨T, _⟩ := step_ok kind 0 [] (fun ops a => judgeValue_replica kind ops a [])
+        h x (hw x List.mem_cons_self)
+      have := ih T (fun y hy => hw y (List.mem_cons_of_mem _ hy))
+      have hp' : (st.step .repaired kind x).p = (st.p.step .repaired kind x).1 := rfl
+      rw [hp'] at this
+      simpa [advanceAll, traceObs, SSt.run, PSt.ops, List.append_assoc, hp'] using this
+  have T := hT steps (tinv_init n peers hp) hs
+  refine known_held T.j T.good a k ha ?_
+  rw [T.j.spec k]
+  simpa [storeOps, SSt.init] using hk
 
 /-- the full statement (not proved): the store judge returns no violation on the model's own
     transcript — all clauses, the final liveness clause included. Well-formed scripts only: stores
